@@ -176,7 +176,8 @@ func vHandlers(hl *vHandlerLog) grpchan.HandlerMap {
 			Methods:     []grpc.MethodDesc{{MethodName: "u", Handler: unary}},
 			Streams: []grpc.StreamDesc{{StreamName: "s", Handler: mkStream("s"), ClientStreams: true, ServerStreams: true},
 				{StreamName: "ss", Handler: mkStream("ss"), ServerStreams: true},
-				{StreamName: "cs", Handler: mkStream("cs"), ClientStreams: true}},
+				{StreamName: "cs", Handler: mkStream("cs"), ClientStreams: true},
+				{StreamName: "nn", Handler: mkStream("nn")}}, // a stream handler for a method with single request and response
 		}
 		hm.RegisterService(desc, &vSvcImpl{sn})
 	}
@@ -253,7 +254,7 @@ func vRefMethod(name string) (class int, svc string, method string) {
 		return 0, "", ""
 	}
 	svc, method = name[:cut], name[cut+1:]
-	if (svc == "a" || svc == "b.c") && (method == "u" || method == "s" || method == "ss" || method == "cs") {
+	if (svc == "a" || svc == "b.c") && (method == "u" || method == "s" || method == "ss" || method == "cs" || method == "nn") {
 		return 2, svc, method
 	}
 	return 1, svc, method
@@ -344,7 +345,9 @@ func verifH_SrvNewStream() {
 	var tmo string
 	switch hdrShape {
 	case 1:
-		ns.RequestHeaders = &tunnelpb.Metadata{Md: map[string]*tunnelpb.Metadata_Values{"k": {Val: []string{"v1", "v2"}}}}
+		// (the second key is not the grpc-timeout header: header names are case-sensitive on this wire, and a
+		// conforming gRPC peer only sends lower-case ones; it must reach the handler as sent and set no deadline)
+		ns.RequestHeaders = &tunnelpb.Metadata{Md: map[string]*tunnelpb.Metadata_Values{"k": {Val: []string{"v1", "v2"}}, "Grpc-Timeout": {Val: []string{"50m"}}}}
 	case 2:
 		tmo = verifString("timeout", verifParam("timeoutlen"))
 		ns.RequestHeaders = &tunnelpb.Metadata{Md: map[string]*tunnelpb.Metadata_Values{"grpc-timeout": {Val: []string{tmo}}}}
@@ -480,7 +483,8 @@ func verifH_SrvNewStream() {
 	rmd, _ := metadata.FromIncomingContext(inv.ctx)
 	if hdrShape == 1 {
 		verifAssert(len(rmd["k"]) == 2 && rmd["k"][0] == "v1" && rmd["k"][1] == "v2", "C02+C17.request-metadata-delivered")
-		verifAssert(len(rmd) == 1, "C02+C17.only-the-rpcs-own-request-metadata")
+		// (metadata.FromIncomingContext hands out lower-cased keys)
+		verifAssert(len(rmd) == 2 && len(rmd["grpc-timeout"]) == 1 && rmd["grpc-timeout"][0] == "50m", "C02+C17.only-the-rpcs-own-request-metadata")
 	}
 	if hdrShape == 0 {
 		// no request metadata: the handler must not see the tunnel opener's instead
@@ -508,7 +512,7 @@ func verifH_SrvNewStream() {
 			verifAssert(!hasDeadline, "C18.malformed-header-no-deadline")
 		}
 	} else {
-		verifAssert(!hasDeadline, "C18.no-header-no-deadline")
+		verifAssert(!hasDeadline, "C18.no-grpc-timeout-header-no-deadline")
 	}
 	verifAssert(inv.ctx.Err() != nil, "C04+C14.handler-context-cancelled-after-finish")
 	// C13: frames of this stream: [headers] ... close is last, exactly one close
